@@ -2,19 +2,61 @@ module amverif
 
 go 1.25.0
 
-require github.com/pancsta/asyncmachine-go v0.0.0
+require (
+	github.com/andybalholm/brotli v1.2.0
+	github.com/gdamore/tcell/v2 v2.13.9
+	github.com/pancsta/asyncmachine-go v0.0.0
+)
 
 require (
+	github.com/AlexanderGrooff/mermaid-ascii v0.0.0-20260221123917-b5d02c35decf // indirect
+	github.com/PuerkitoBio/goquery v1.10.0 // indirect
+	github.com/alecthomas/chroma/v2 v2.14.0 // indirect
 	github.com/alitto/pond/v2 v2.7.1 // indirect
+	github.com/andybalholm/cascadia v1.3.2 // indirect
+	github.com/anmitsu/go-shlex v0.0.0-20200514113438-38f4b401e2be // indirect
 	github.com/cenkalti/hub v1.0.2 // indirect
 	github.com/cenkalti/rpc2 v1.0.4 // indirect
+	github.com/charmbracelet/ssh v0.0.0-20250826160808-ebfa259c7309 // indirect
+	github.com/charmbracelet/x/termios v0.1.0 // indirect
+	github.com/clipperhouse/uax29/v2 v2.2.0 // indirect
 	github.com/coder/websocket v1.8.12 // indirect
+	github.com/creack/pty v1.1.21 // indirect
+	github.com/dlclark/regexp2 v1.11.4 // indirect
+	github.com/dominikbraun/graph v0.23.0 // indirect
+	github.com/dop251/goja v0.0.0-20240927123429-241b342198c2 // indirect
 	github.com/failsafe-go/failsafe-go v0.6.8 // indirect
+	github.com/gdamore/encoding v1.0.1 // indirect
+	github.com/go-sourcemap/sourcemap v2.1.4+incompatible // indirect
+	github.com/golang/freetype v0.0.0-20170609003504-e2365dfdc4a0 // indirect
+	github.com/google/jsonschema-go v0.4.2 // indirect
+	github.com/google/pprof v0.0.0-20250607225305-033d6d78b36a // indirect
+	github.com/google/uuid v1.6.0 // indirect
+	github.com/joho/godotenv v1.5.1 // indirect
 	github.com/lithammer/dedent v1.1.0 // indirect
+	github.com/lucasb-eyer/go-colorful v1.3.0 // indirect
+	github.com/mark3labs/mcp-go v0.48.0 // indirect
+	github.com/mattn/go-runewidth v0.0.19 // indirect
+	github.com/mazznoer/csscolorparser v0.1.5 // indirect
 	github.com/orsinium-labs/enum v1.4.0 // indirect
+	github.com/pancsta/cview v1.5.23 // indirect
+	github.com/rivo/uniseg v0.4.7 // indirect
 	github.com/soheilhy/cmux v0.1.5 // indirect
+	github.com/spf13/cast v1.7.1 // indirect
+	github.com/teivah/onecontext v1.3.0 // indirect
+	github.com/yosida95/uritemplate/v3 v3.0.2 // indirect
+	github.com/yuin/goldmark v1.7.4 // indirect
+	github.com/zyedidia/clipper v0.1.1 // indirect
+	golang.org/x/crypto v0.50.0 // indirect
+	golang.org/x/exp v0.0.0-20250606033433-dcc06ee1d476 // indirect
+	golang.org/x/image v0.20.0 // indirect
 	golang.org/x/net v0.52.0 // indirect
+	golang.org/x/sys v0.43.0 // indirect
+	golang.org/x/term v0.42.0 // indirect
 	golang.org/x/text v0.36.0 // indirect
+	golang.org/x/xerrors v0.0.0-20240903120638-7835f813f4da // indirect
+	oss.terrastruct.com/d2 v0.7.1 // indirect
+	oss.terrastruct.com/util-go v0.0.0-20250213174338-243d8661088a // indirect
 )
 
 replace github.com/pancsta/asyncmachine-go => /repo
